@@ -42,9 +42,7 @@ Proof.
   apply bind_ok in H as (s0 & s1 & _ & H).
   apply bind_ok in H as (count & s2 & _ & H).
   apply bind_ok in H as (params & s3 & _ & H).
-  apply bind_ok in H as (u1 & s4 & _ & H).
   apply bind_ok in H as (targets & s5 & _ & H).
-  apply bind_ok in H as (u2 & s6 & _ & H).
   unfold emit, ret in H. rewrite Hco in H. inversion H; subst. exists params.
   apply Forall_forall. intros st Hin. apply in_map_iff in Hin as (tg & <- & _). exists tg. reflexivity.
 Qed.
